@@ -68,7 +68,7 @@ func (c *capture) DispatchMetricMap(_ context.Context, mm *gostatsd.MetricMap) {
 	c.mm = mm
 }
 func (c *capture) DispatchEvent(_ context.Context, e *gostatsd.Event) { c.events = append(c.events, e) }
-func (c *capture) WaitForEvents()                                      {}
+func (c *capture) WaitForEvents()                                     {}
 
 func cp(xs []string) []string { return append([]string{}, xs...) }
 
@@ -201,6 +201,39 @@ func hasDup(xs []string) bool {
 	return false
 }
 
+func newHandler(in input, next gostatsd.PipelineHandler) *statsd.TagHandler {
+	var filters []statsd.Filter
+	for _, f := range in.Filters {
+		conv := func(ps []string) gostatsd.StringMatchList {
+			l := make(gostatsd.StringMatchList, 0, len(ps))
+			for _, p := range ps {
+				l = append(l, gostatsd.NewStringMatch(p))
+			}
+			return l
+		}
+		filters = append(filters, statsd.Filter{MatchMetrics: conv(f.MM), ExcludeMetrics: conv(f.EM), MatchTags: conv(f.MT),
+			DropTags: conv(f.DT), DropMetric: f.DropMetric, DropHost: f.DropHost})
+	}
+	return statsd.NewTagHandler(next, cp(in.Static), filters)
+}
+
+// firstOfKey: series i is the one buildMap keeps for its (type, name, key).
+func firstOfKey(in input, i int) bool {
+	keyOf := func(s series) string {
+		k := s.Key
+		if k == "" {
+			k = gostatsd.FormatTagsKey(gostatsd.Source(s.Src), cp(s.Tags))
+		}
+		return fmt.Sprintf("%d\x00%s\x00%s", s.Type, s.Name, k)
+	}
+	for j := 0; j < i; j++ {
+		if keyOf(in.Series[j]) == keyOf(in.Series[i]) {
+			return false
+		}
+	}
+	return true
+}
+
 func runOne(em *hlib.Emitter, in input) {
 	c := hlib.Case{Input: in}
 	mm := buildMap(in)
@@ -210,21 +243,7 @@ func runOne(em *hlib.Emitter, in input) {
 
 	next := &capture{}
 	var th *statsd.TagHandler
-	ctorPanic := hlib.Recover(func() {
-		var filters []statsd.Filter
-		for _, f := range in.Filters {
-			conv := func(ps []string) gostatsd.StringMatchList {
-				l := make(gostatsd.StringMatchList, 0, len(ps))
-				for _, p := range ps {
-					l = append(l, gostatsd.NewStringMatch(p))
-				}
-				return l
-			}
-			filters = append(filters, statsd.Filter{MatchMetrics: conv(f.MM), ExcludeMetrics: conv(f.EM), MatchTags: conv(f.MT),
-				DropTags: conv(f.DT), DropMetric: f.DropMetric, DropHost: f.DropHost})
-		}
-		th = statsd.NewTagHandler(next, cp(in.Static), filters)
-	})
+	ctorPanic := hlib.Recover(func() { th = newHandler(in, next) })
 	var evOut [][]string
 	nOut := 0
 	outDump := "[]"
@@ -271,6 +290,53 @@ func runOne(em *hlib.Emitter, in input) {
 			evOut = append(evOut, cp(e.Tags))
 		}
 	}
+	// direct loss monitor, independent of the model: every series is also sent alone through a
+	// fresh handler with the same configuration; what survives alone must add up to the output
+	kept, collided := 0, 0
+	if ctorPanic == "" && next.calls <= 1 {
+		var cSum, cSumOut int64
+		var tN, tNOut int
+		var tS, tSOut float64
+		members, membersOut := map[string]bool{}, map[string]bool{}
+		for i := range in.Series {
+			one := in
+			one.Series = in.Series[i : i+1]
+			single := buildMap(one)
+			if mmgen.Size(single) == 0 || !firstOfKey(in, i) {
+				continue
+			}
+			n2 := &capture{}
+			hlib.Recover(func() { newHandler(in, n2).DispatchMetricMap(context.Background(), single) })
+			if n2.mm == nil {
+				continue
+			}
+			kept++
+			n2.mm.Counters.Each(func(_, _ string, v gostatsd.Counter) { cSum += v.Value })
+			n2.mm.Timers.Each(func(_, _ string, v gostatsd.Timer) { tN += len(v.Values); tS += v.SampledCount })
+			n2.mm.Sets.Each(func(n, k string, v gostatsd.Set) {
+				for m := range v.Values {
+					members[n+"\x00"+k+"\x00"+m] = true
+				}
+			})
+		}
+		if next.mm != nil {
+			next.mm.Counters.Each(func(_, _ string, v gostatsd.Counter) { cSumOut += v.Value })
+			next.mm.Timers.Each(func(_, _ string, v gostatsd.Timer) { tNOut += len(v.Values); tSOut += v.SampledCount })
+			next.mm.Sets.Each(func(n, k string, v gostatsd.Set) {
+				for m := range v.Values {
+					membersOut[n+"\x00"+k+"\x00"+m] = true
+				}
+			})
+		}
+		collided = kept - nOut
+		if cSum != cSumOut || tN != tNOut || tS != tSOut || len(members) != len(membersOut) {
+			c.Monitors = append(c.Monitors, fmt.Sprintf("data lost or invented in the tag stage: counters %d -> %d, timer values %d -> %d, sampled %v -> %v, set members %d -> %d",
+				cSum, cSumOut, tN, tNOut, tS, tSOut, len(members), len(membersOut)))
+		}
+		if collided < 0 {
+			c.Monitors = append(c.Monitors, fmt.Sprintf("%d series survive alone but %d leave the tag stage", kept, nOut))
+		}
+	}
 	raws := make([]string, len(in.Filters))
 	npat := 0
 	for i, f := range in.Filters {
@@ -296,7 +362,8 @@ func runOne(em *hlib.Emitter, in input) {
 		c.Class = in.Stream + ":same-count"
 	}
 	c.Nontrivial = len(in.Filters) >= 1 && npat >= 1 && nIn >= 2 && ctorPanic == "" && (nOut < nIn || cleared)
-	c.Obs = map[string]interface{}{"series_in": nIn, "series_out": nOut, "filters": len(in.Filters), "patterns": npat, "ctor_panic": ctorPanic, "events_out": evOut}
+	_ = collided
+	c.Obs = map[string]interface{}{"series_in": nIn, "series_out": nOut, "filters": len(in.Filters), "patterns": npat, "ctor_panic": ctorPanic, "events_out": evOut, "dropped": nIn - kept, "collided": collided}
 	em.Emit(c)
 }
 
